@@ -1,5 +1,6 @@
 import Placement.Spec.Limit
 import Placement.Lemmas.CandBase
+import Placement.Gen.Guards
 /-
   C20  "For any query, GET /allocation_candidates with limit=N returns exactly min(N, M) distinct allocation requests,
   every one of which belongs to the M returned without a limit, together with provider summaries covering every
@@ -123,6 +124,25 @@ theorem deterministic_limit_is_prefix_of_unlimited_order (sel : Selection) (limi
       · simp only [h0, if_false]
         have : full.take n = full := List.take_of_length_le (by omega)
         simp [h, this]
+
+/-! ### tie to the source: the two tests of `limit_results` are the generated ones
+
+`Gen.limitApplies` / `Gen.shuffleWhenUnlimited` are translated from the `if` / `elif` of `limit_results` on every run
+(a request without `limit` has `limit = 0`, which like `None` is false in the code's `if self._limit and ...`); the
+translator also refuses to run when the list expressions of the function (what is sampled, sliced, shuffled, walked for
+the root uuids, returned) are not the ones `limitRequests` / `limitSummaries` were written for. -/
+
+theorem limiting_is_generated (limit : Option Nat) (full : List Candidate) (nSummaries : Nat) :
+    limiting limit full = Gen.limitApplies (limit.getD 0) full.length nSummaries := by
+  cases limit with
+  | none => simp [limiting, Gen.limitApplies]
+  | some n => simp [limiting, Gen.limitApplies]
+
+theorem unlimited_branch_is_generated (sel : Selection) (randomize : Bool) (limit : Option Nat) (full : List Candidate)
+    (h : limiting limit full = false) :
+    limitRequests sel randomize limit full = if Gen.shuffleWhenUnlimited randomize then sel.shuffle full else full := by
+  simp only [limitRequests, h, Gen.shuffleWhenUnlimited, Bool.false_eq_true, if_false]
+  cases randomize <;> rfl
 
 /-! ### example: a selection that meets the contracts (reverse, then prefix), on a three-element result -/
 
